@@ -132,8 +132,13 @@ class RestartRun:
 
     def __init__(self, program, crashes=None, media=None, loader_mode='default', build=None, max_rounds=200, pauses=None,
                  crash_paused=None, pause_in_step=None, crash_on_paused=None, crash_on_played=None, lag=None, tags=None,
-                 crash_on_exit=None, lose_at=None, detached=False):
+                 crash_on_exit=None, lose_at=None, detached=False, pause_at_resume=None):
         self.plumpy = seams.install()
+        # ordinals of wake-ups that are preceded, in the same loop iteration, by a pause request (played again afterwards)
+        self.pause_at_resume = set(int(n) for n in (pause_at_resume or []))
+        self.wake_ordinal = 0
+        self.last_woken_state = None
+        self.resume_lost = None
         self.program = program
         self.crashes = {int(k): v for k, v in (crashes or {}).items()}
         self.media = list(media or ['deepcopy'])
@@ -442,7 +447,16 @@ class RestartRun:
                         except SimCrash:
                             break  # the checkpoint was written from the 'played' notification: continue from it
                     elif proc.state.value == 'waiting' and not task.done():
+                        if proc._state is self.last_woken_state:
+                            # this very wait was resumed already, the process has come to rest (and been played) since
+                            self.resume_lost = proc.state.value
+                            self.world.rec('resume_lost', self.wake_ordinal)
+                            break
+                        self.last_woken_state = proc._state
+                        self.wake_ordinal += 1
                         try:
+                            if self.wake_ordinal in self.pause_at_resume:
+                                self.world.rec('pause_at_resume', self.wake_ordinal, repr(proc.pause('before-resume'))[:12])
                             if not self._wake(proc):
                                 break
                         except SimError:
